@@ -12,7 +12,8 @@ import (
 )
 
 type crashUnit struct {
-	Sets    []string // raw keys
+	ops     []crashOp // the operations in issue order (values included), so that a logged unit can be applied to a clone
+	Sets    []string  // raw keys
 	Deletes []string
 }
 
@@ -139,6 +140,19 @@ func (c *crashDB) clone() *crashDB {
 	return n
 }
 
+// applyUnits writes logged units (in order) into this database: the durable state of a process that died after them.
+func (c *crashDB) applyUnits(us []crashUnit) {
+	for _, u := range us {
+		for _, o := range u.ops {
+			if o.del {
+				c.mem.Delete(o.k)
+			} else {
+				c.mem.Set(append([]byte{}, o.k...), append([]byte{}, o.v...))
+			}
+		}
+	}
+}
+
 func (c *crashDB) armCrash(k int) { c.units, c.dieAfter, c.dead = 0, k, false }
 func (c *crashDB) revive()        { c.dieAfter, c.dead = -1, false }
 func (c *crashDB) startLog()      { c.units, c.log, c.keepLog = 0, nil, true }
@@ -168,13 +182,13 @@ func (c *crashDB) admit(u crashUnit) bool {
 func (c *crashDB) Get(k []byte) []byte { return c.mem.Get(k) }
 func (c *crashDB) Has(k []byte) bool   { return c.mem.Has(k) }
 func (c *crashDB) Set(k, v []byte) {
-	if c.admit(crashUnit{Sets: []string{string(k)}}) {
+	if c.admit(crashUnit{Sets: []string{string(k)}, ops: []crashOp{{k: append([]byte{}, k...), v: append([]byte{}, v...)}}}) {
 		c.mem.Set(k, v)
 	}
 }
 func (c *crashDB) SetSync(k, v []byte) { c.Set(k, v) }
 func (c *crashDB) Delete(k []byte) {
-	if c.admit(crashUnit{Deletes: []string{string(k)}}) {
+	if c.admit(crashUnit{Deletes: []string{string(k)}, ops: []crashOp{{del: true, k: append([]byte{}, k...)}}}) {
 		c.nDeletes++
 		c.mem.Delete(k)
 	}
@@ -204,7 +218,7 @@ func (b *crashBatch) Delete(k []byte) {
 	b.ops = append(b.ops, crashOp{del: true, k: append([]byte{}, k...)})
 }
 func (b *crashBatch) Write() {
-	var u crashUnit
+	u := crashUnit{ops: b.ops}
 	for _, o := range b.ops {
 		if o.del {
 			u.Deletes = append(u.Deletes, string(o.k))
